@@ -1,6 +1,7 @@
 import SeqIoModel.Model.Fmt
 import SeqIoModel.Model.Spec
 import SeqIoModel.Model.Write
+import SeqIoModel.Model.ParallelCheck
 /-!
 # Model driver: line protocol
 
@@ -423,6 +424,49 @@ def handleWrite (toks : List String) : String :=
         (if out.isEmpty then "-" else hexOf out) ++ " RT:" ++ rt
   | _ => "bad-case"
 
+/-! ## parallel protocol traces -/
+
+def parseEvTok (s : String) : Option Par.Ev :=
+  let two (r : String) : Option (Nat × Nat) :=
+    match r.splitOn "." with
+    | [a, b] => match a.toNat?, b.toNat? with
+      | some a, some b => some (a, b)
+      | _, _ => none
+    | _ => none
+  if s = "ri1" then some (.ri true) else if s = "ri0" then some (.ri false)
+  else if s = "di1" then some (.di true) else if s = "di0" then some (.di false)
+  else if s = "ce" then some .ce else if s = "cn" then some .cn else if s = "cx" then some .cx
+  else if s.startsWith "ret" then (s.drop 3).toString.toNat?.map .ret
+  else if s.startsWith "fe" then (s.drop 2).toString.toNat?.map .fErr
+  else if s.startsWith "fn" then (s.drop 2).toString.toNat?.map .fNone
+  else if s.startsWith "we" then (two (s.drop 2).toString).map fun p => .we p.1 p.2
+  else if s.startsWith "cr" then (two (s.drop 2).toString).map fun p => .cr p.1 p.2
+  else if s.startsWith "f" then (two (s.drop 1).toString).map fun p => .fOk p.1 p.2
+  else none
+
+def optNat (s : String) : Option (Option Nat) := if s = "-" then some none else s.toNat?.map some
+
+/-- `X T Q N endErr riFail dsFail stop cont seed trace` -/
+def handlePar (toks : List String) : String :=
+  match toks with
+  | [t, q, n, ee, rf, df, st, ct, _seed, trace] =>
+    match t.toNat?, q.toNat?, n.toNat?, optNat df, optNat st with
+    | some t, some q, some n, some df, some st =>
+      let c : Par.Cfg := { T := t, Q := q, N := n, endErr := ee = "1", readerInitFails := rf = "1",
+                           dsInitFailAt := df, stopAfter := st, contAfterErr := ct = "1" }
+      match parseList trace "," parseEvTok with
+      | none => "bad-trace"
+      | some evs =>
+        let verdict := match Par.accept c evs with
+          | none => "accept"
+          | some i => s!"reject@{i}"
+        if t ≤ 2 && q ≤ 2 && n ≤ 3 then
+          let (a, b, d, f) := Par.explore c 2000000
+          s!"{verdict} states={a} trans={b} dead={d} final={f}"
+        else verdict
+    | _, _, _, _, _ => "bad-case"
+  | _ => "bad-case"
+
 def handle (line : String) : List String :=
   match line.trimAscii.toString.splitOn " " with
   | "R" :: toks =>
@@ -430,12 +474,17 @@ def handle (line : String) : List String :=
     | some (m, s) => ["M " ++ m, "S " ++ s]
     | none => ["M bad-case"]
   | "W" :: toks => ["M " ++ handleWrite toks]
+  | "X" :: toks => ["M " ++ handlePar toks]
+  | ["Y", fmt, _, _, _, _, inp] =>
+    match unhex inp with
+    | some b => ["M ok", "S " ++ (if fmt = "fa" then Fa.specStr b else Fq.specStr b)]
+    | none => ["M bad-case"]
   | _ => ["M bad-case"]
 
 partial def loop (h : IO.FS.Stream) (out : IO.FS.Stream) : IO Unit := do
   let line ← h.getLine
   if line.isEmpty then return ()
-  if line.startsWith "R " || line.startsWith "W " || line.startsWith "X " then
+  if line.startsWith "R " || line.startsWith "W " || line.startsWith "X " || line.startsWith "Y " then
     for l in handle line do
       out.putStrLn l
   loop h out
